@@ -1,5 +1,5 @@
 """C14: fixed-base multiplication returns [s]G for canonical s only."""
-import json
+import json, re
 from ..common import *
 from .. import proofgate, composer, widgets, protocol
 from .. import jubjub as J
@@ -29,6 +29,40 @@ def rederive_fixed(snap, wits, digits_msb):
         d1, d2 = (1 + t) % R, (1 - t) % R
         w[an] = (w[a] * ya + w[b] * xa) * J.inv(d1) % R if d1 else 0
         w[bn] = (w[b] * ya + w[a] * xa) * J.inv(d2) % R if d2 else 0
+    return w
+
+def rederive_cancel(snap, wits, digits_msb, at, pair, eps):
+    """as rederive_fixed, but at fixed-base row number [at] two of the four widget residuals
+    (bitc, xy, x, y) are made non-zero with sum zero; all later rows follow honestly from the forged
+    accumulator.  Unsatisfiable for the coded widget (its four weights are distinct powers of the
+    separation challenge); satisfiable for a widget that gives the two residuals one weight."""
+    w = list(wits); g = snap.gates
+    rows = fixed_rows(snap)
+    for k, i in enumerate(rows):
+        sel, (a, b, c, d) = g[i]
+        an, bn, _, dn = g[i + 1][1]
+        bit = digits_msb[k] % R
+        xb, yb, xyb = sel[1], sel[2], sel[5]
+        w[dn] = (2 * w[d] + bit) % R
+        xa = bit * xb % R; ya = (bit * bit % R * (yb - 1) + 1) % R
+        w[c] = bit * xyb % R
+        bitc = bit * (bit - 1) % R * (bit + 1) % R
+        hit = (k == at)
+        if hit and pair in (("xy", "x"), ("xy", "y")): w[c] = (w[c] - eps) % R          # fb_xy = eps
+        if hit and pair == ("bitc", "xy"): w[c] = (w[c] + bitc) % R                     # fb_xy = -bitc
+        t = D_ED * w[c] % R * w[a] % R * w[b] % R
+        d1, d2 = (1 + t) % R, (1 - t) % R
+        if not d1 or not d2: return None
+        nx, ny = (w[a] * ya + w[b] * xa) % R, (w[b] * ya + w[a] * xa) % R
+        if hit and pair == ("xy", "x"): nx = (nx - eps) % R
+        if hit and pair == ("xy", "y"): ny = (ny - eps) % R
+        if hit and pair == ("bitc", "x"): nx = (nx - bitc) % R
+        if hit and pair == ("bitc", "y"): ny = (ny - bitc) % R
+        w[an] = nx * J.inv(d1) % R
+        w[bn] = ny * J.inv(d2) % R
+        if hit and pair == ("x", "y"):
+            w[an] = (w[an] + eps) % R                                                   # fb_x = eps (1 + t)
+            w[bn] = (w[bn] - eps * d1 % R * J.inv(d2)) % R                              # fb_y = -eps (1 + t)
     return w
 
 def digits_msb_of(k): return list(reversed(J.wnaf2(k)))
@@ -137,6 +171,25 @@ def run(ck):
                         w2[res[-2]], w2[res[-1]] = w2[snap.gates[rows[-1] + 1][1][0]], w2[snap.gates[rows[-1] + 1][1][1]]
                         job(name + "_d2", snap, w2, False, "digit 2 in place of (1,0): same integer, accumulators re-derived with the widget formulas", name)
                         break
+                # two residuals of one fixed-base row non-zero with sum zero (x/y, xy/x, xy/y on an honest digit;
+                # bitc/xy, bitc/x, bitc/y on the row carrying the digit 2): a widget that gives two of its four
+                # identities the same weight accepts these and returns a point that is not [s]G
+                last = (snap.gates[rows[-1] + 1][1][0], snap.gates[rows[-1] + 1][1][1])
+                for pair in (("x", "y"), ("xy", "x"), ("xy", "y")):
+                    at = rng.randrange(3, 256)
+                    w2 = rederive_cancel(snap, snap.wits, dm, at, pair, rng.scalar() or 1)
+                    if w2 is None: continue
+                    w2[res[-2]], w2[res[-1]] = w2[last[0]], w2[last[1]]
+                    job(f"{name}_c{pair[0]}{pair[1]}", snap, w2, False, f"fixed-base row {at}: residuals {pair[0]} and {pair[1]} non-zero with sum zero, later rows honest", name)
+                for k in range(3, 255):
+                    if dm[k] == 1 and dm[k + 1] == 0:
+                        d2 = list(dm); d2[k], d2[k + 1] = 0, 2
+                        for pair in (("bitc", "xy"), ("bitc", "x"), ("bitc", "y")):
+                            w2 = rederive_cancel(snap, snap.wits, d2, k + 1, pair, 0)
+                            if w2 is None: continue
+                            w2[res[-2]], w2[res[-1]] = w2[last[0]], w2[last[1]]
+                            job(f"{name}_c{pair[0]}{pair[1]}", snap, w2, False, f"fixed-base row {k + 1} with digit 2: residuals {pair[0]} and {pair[1]} non-zero with sum zero", name)
+                        break
                 # all digits re-derived for s + r_jubjub (closing equality fails unless it wraps)
                 alt = digits_raw(s + J.RJ)
                 if len(alt) <= 256:
@@ -160,8 +213,8 @@ def run(ck):
     for nm, snap_, w2 in jobs:
         if w2 is None or expect[nm] is not False: continue
         tag, prog = info[nm]
-        if not (nm.endswith("_d2") or nm.endswith("_rj") or nm.endswith("_other")) : continue
-        if len(rp_cases) >= (6 if quick else 40): break
+        if not (nm.endswith("_d2") or nm.endswith("_rj") or nm.endswith("_other") or re.search(r"_c(bitc|xy|x)(xy|x|y)$", nm)): continue
+        if len(rp_cases) >= (12 if quick else 60): break
         over = {i: v for i, v in enumerate(w2) if i < len(snap_.wits) and v != snap_.wits[i]}
         rp_cases.append((nm, progs[prog], over))
     if rp_cases:
